@@ -34,7 +34,8 @@ def amf_cfg(cfg, strict=False):
                 **({"exact16k": cfg["exact16k"]} if "exact16k" in cfg else {}),
                 **({"other_plmn_first": cfg["other_plmn_first"]} if "other_plmn_first" in cfg else {}),
                 **({"snssai_shift": cfg["snssai_shift"]} if "snssai_shift" in cfg else {}),
-                **({"unsolicited_before_setup": cfg["unsolicited_before_setup"]} if "unsolicited_before_setup" in cfg else {}))
+                **({"unsolicited_before_setup": cfg["unsolicited_before_setup"]} if "unsolicited_before_setup" in cfg else {}),
+                **({k: cfg[k] for k in ("int_priority", "enc_priority") if k in cfg}))
 
 
 GARBAGE = b"\xff\xfe\xfd"
